@@ -180,7 +180,8 @@ def step (s : DSt) (ws : List String) : DSt × List String :=
     match chanRef s owner, parseOperand s a, parseOperand s b, parseOperand s c, parseFlags flags with
     | some (oid, parent, sc0), some a, some b, some c, some (ready, sN, bN, cN) =>
       let sc := keyName s oid sc0
-      let es : Expr := { owner := oid, slabel := sc, cls := "Slice", ops := [a, b, c] }
+      let so : Nat × String := if s.identKey then (0, "") else (oid, sc)
+      let es : Expr := { owner := so.1, slabel := so.2, cls := "Slice", ops := [a, b, c] }
       let keys1 := intern s.keys (key s.printer es)
       let slab := label (hashIn s.session keys1) s.printer es
       -- the id the Slice node has or will get, to name the GetItem operand before the call
@@ -189,7 +190,7 @@ def step (s : DSt) (ws : List String) : DSt × List String :=
         | some p => ((s.st.children p).lookup slab).getD s.st.next
       let newS := kS == s.st.next
       if newS && sliceRaises s.sliceFn ready sN bN cN then
-        let r := getitemSliceRun (hashIn s.session keys1) s.printer s.sliceFn s.st parent oid sc a b c (· + 1000) ready sN bN cN
+        let r := getitemSliceX (hashIn s.session keys1) s.printer s.sliceFn s.st parent oid sc a b c (· + 1000) ready sN bN cN false so
         let s1 := { s with st := r.1, keys := keys1 }
         let s2 := regNode s1 r.2.1 parent slab "Slice"
         (s2, [s!"slice {r.2.1} 1 {match r.2.2 with | some g => toString g | none => "-"} - {count s2 parent}"])
@@ -198,7 +199,7 @@ def step (s : DSt) (ws : List String) : DSt × List String :=
       let eg : Expr := { owner := oid, slabel := sc, cls := "GetItem", ops := [item] }
       let keys2 := intern keys1 (key s.printer eg)
       let H := hashIn s.session keys2
-      let r := getitemSliceX H s.printer s.sliceFn s.st parent oid sc a b c (· + 1000) ready sN bN cN gRaised
+      let r := getitemSliceX H s.printer s.sliceFn s.st parent oid sc a b c (· + 1000) ready sN bN cN gRaised so
       match r.2.2 with
       | none => (s, ["bad-op"])   -- unreachable: the raising case was handled above
       | some kG =>
